@@ -483,6 +483,13 @@ func c09(r *rep.Run) {
 				for k := range pad {
 					pad[k] = term.Const(int64(k))
 				}
+				// words the compiler uses internally as node markers, as ordinary data
+				if i%3 == 1 {
+					pad[d/3] = term.Const("fi")
+					pad[d-1] = term.Const("if")
+				} else if i%3 == 2 {
+					pad[d-2] = term.Const("fi")
+				}
 				if shape == 0 {
 					full = term.Op("last", t.T.Ty, append(pad, t.T)...)
 				} else {
